@@ -98,12 +98,16 @@ pub mod eng {
 	pub fn on_thread(_t: u32, _f: fn()) {
 		// no second thread under Kani
 	}
+	pub fn debug_fmt<T: core::fmt::Debug + ?Sized>(_x: &T) -> bool {
+		true
+	}
 }
 
 #[cfg(verif_mir)]
 pub mod eng {
 	extern "Rust" {
 		fn verif_on_thread(t: u32, f: fn());
+		fn verif_formatter() -> *mut core::fmt::Formatter<'static>;
 		fn verif_any_u8(tag: u32) -> u8;
 		fn verif_assume(c: bool);
 		fn verif_check(c: bool, code: u32);
@@ -132,6 +136,11 @@ pub mod eng {
 	/// runs f to completion on another modelled thread (own thread-locals)
 	pub fn on_thread(t: u32, f: fn()) {
 		unsafe { verif_on_thread(t, f) }
+	}
+	/// Debug-formats x into a discarding sink (core::fmt's builders are summarised by the engine)
+	pub fn debug_fmt<T: core::fmt::Debug + ?Sized>(x: &T) -> bool {
+		let f = unsafe { &mut *verif_formatter() };
+		core::fmt::Debug::fmt(x, f).is_ok()
 	}
 }
 
@@ -197,6 +206,18 @@ pub mod eng {
 	pub fn inject_panic() -> ! {
 		// resume_unwind skips the panic hook
 		std::panic::resume_unwind(Box::new("verif injected panic"))
+	}
+	pub struct Sink(pub u32);
+	impl core::fmt::Write for Sink {
+		fn write_str(&mut self, s: &str) -> core::fmt::Result {
+			self.0 = self.0.wrapping_add(s.len() as u32);
+			Ok(())
+		}
+	}
+	pub fn debug_fmt<T: core::fmt::Debug + ?Sized>(x: &T) -> bool {
+		use core::fmt::Write;
+		let mut s = Sink(0);
+		write!(s, "{:?}", x).is_ok()
 	}
 	/// runs f to completion on a real second thread
 	pub fn on_thread(_t: u32, f: fn()) {
